@@ -279,7 +279,7 @@ def deploy_mc(which):
 
     def consts(tier, **kw):
         q = tier == 'quick'
-        c = dict(Tmpl='MCTmpl3', Obj='MCObj', TObjs='MCTObjs', MaxColl=1, HistLimit=1, Lag='FALSE', WithPk='FALSE', AtomicOd='FALSE',
+        c = dict(Tmpl='MCTmpl3', Obj='MCObj', TObjs='MCTObjs', MaxColl=1, HistLimit=1, Lag='FALSE', WithPk='FALSE', AtomicOd='FALSE', MaxPkFail=0, GCAfterFailedUpdate='FALSE',
                  MaxEdit=2, MaxPause=1 if q else 1, MaxWork=1 if q else 2, MaxCrash=0 if q else 1, MaxLagEdit=2)
         c.update(kw)
         return c
@@ -303,6 +303,12 @@ def deploy_mc(which):
                              invariants=['TypeOK', 'Inv_C14_GCDecision', 'Inv_C14_GCInstant'], timeout=3000))
             jobs.append(dict(name='deploy-pk-asfound', kind='gen', module='MC_PKODeploy', constants=consts(tier, WithPk='TRUE', MaxPause=0),
                              invariants=['Inv_C14_GCInstant'], expect_violation='Inv_C14_GCInstant'))
+            # a failed update of the deployment: the pass ends (decision invariant holds) - or, negative control, GC runs anyway
+            small = dict(Tmpl='MCTmpl', WithPk='TRUE', MaxPause=0, MaxWork=0, MaxCrash=0, MaxPkFail=1)
+            jobs.append(dict(name='deploy-pk-updatefails', kind='gen', module='MC_PKODeploy', constants=consts(tier, **small),
+                             invariants=['TypeOK', 'Inv_C14_GCDecision'], timeout=3000))
+            jobs.append(dict(name='deploy-pk-negctl-gcfail', kind='gen', module='MC_PKODeploy', constants=consts(tier, GCAfterFailedUpdate='TRUE', **small),
+                             invariants=['Inv_C14_GCDecision'], expect_violation='Inv_C14_GCDecision'))
         return jobs
     return f
 
